@@ -22,8 +22,10 @@ def structure(m):
     return s
 
 
-def back_kwargs(opts):
+def back_kwargs(opts, cal=None):
     kw = runner.sim_kwargs(opts)
+    if cal is not None:
+        kw["absence_time_list"] = cal  # the caller's own list object (used again for the later forward run)
     kw["considering_due_time_of_tail_tasks"] = bool(opts.get("due"))
     kw["reverse_log_information"] = bool(opts.get("rev", True))
     return kw
@@ -50,6 +52,7 @@ def one_case(spec, opts, fault, ftype="exception", pre_runs=0):
         finally:
             os.unlink(path)
     before = structure(a)
+    cal = list(opts.get("absence", []))  # one calendar object in the caller's hands, passed to every run on the project under test
     for _ in range(pre_runs):
         # earlier, undisturbed backward runs on the same object (the examined run must behave like a first one)
         try:
@@ -68,9 +71,9 @@ def one_case(spec, opts, fault, ftype="exception", pre_runs=0):
             # the caller runs with warnings turned into errors: the "Time Over" warning of the cut inner run aborts backward_simulate
             with warnings.catch_warnings():
                 warnings.simplefilter("error")
-                a.project.backward_simulate(**back_kwargs(opts))
+                a.project.backward_simulate(**back_kwargs(opts, cal))
         else:
-            a.project.backward_simulate(**back_kwargs(opts))
+            a.project.backward_simulate(**back_kwargs(opts, cal))
     except (runner.InjectedFault, runner.InjectedInterrupt):
         err = "injected"
     except Warning:
@@ -118,7 +121,7 @@ def one_case(spec, opts, fault, ftype="exception", pre_runs=0):
     # a later forward run equals the forward run of an untouched twin
     try:
         kw = runner.sim_kwargs(opts)
-        a.project.simulate(**kw)
+        a.project.simulate(**dict(kw, absence_time_list=cal))
         b.project.simulate(**kw)
         da, db = jdump(a), jdump(b)
         if da != db:
@@ -201,6 +204,11 @@ def items(tier):
             sp = F.with_teams(fl, "DED")
             for rev in (True, False):
                 out.append((sp, {"rule": "TSLACK", "due": False, "rev": rev, "absence": [], "max_time": F.seq_bound(sp) + 12}))
+    # two links of different kinds between one pair of tasks (both orders of declaration), with project-wide absence steps early and late
+    for sp in F.double_link_specs():
+        for rev in (True, False):
+            out.append((sp, {"rule": "TSLACK", "due": False, "rev": rev, "absence": [], "max_time": F.seq_bound(sp) + 12}))
+        out.append((sp, {"rule": "TSLACK", "due": False, "rev": True, "absence": [0, 1], "max_time": F.seq_bound(sp) + 12}))
     for sp, o in list(out)[:: (29 if tier == "quick" else 7)]:
         out.append((sp, dict(o, via_json=True)))
     for sp, o in list(out)[:: (23 if tier == "quick" else 6)]:
